@@ -221,6 +221,12 @@ type VSlice struct {
 	Ty                 *STy // TSlice (IsStr for strings; then Cap == Len)
 }
 type VTuple struct{ Vs []Value }
+
+// VRangeIter: the iterator of a range over a string or map (abstracted, see *ssa.Next)
+type VRangeIter struct {
+	X Value
+	T types.Type
+}
 type VArr struct { // array value (global tables, loaded arrays)
 	Arr *Term
 	Ty  *STy
